@@ -194,3 +194,72 @@ def _matching_close(text: str) -> int:
             if depth == 0:
                 return i
     raise NotUnderstood("unbalanced parenthesis in PRIMARY KEY clause")
+
+
+# =============================================================================================== C40
+# `LiteSQL` -- na-c's source interpreter with two additions needed to run ORM strategy code on a model:
+#  * a call of a function of the SQL expression package (sql/...) is not interpreted; it yields a *recording*
+#    model object that remembers the callee and the ordered arguments (what the construct is made of);
+#  * `collections.namedtuple` (a record type built at class level) is the analysing interpreter's own.
+
+import collections as _collections
+
+from ._helpers_na_c import FuncVal, Inst, Lite, Unsupported
+
+
+class LiteSQL(Lite):
+    def sql_construct(self, info, args, kwargs) -> Inst:
+        i = Inst(None, {"_sql_callee": info.key}, tuple(args), dict(kwargs), label=f"sql:{info.name}")
+        i.default_attr = lambda a: None
+        return i
+
+    def call_function(self, fv: FuncVal, args: list, kwargs: dict):
+        info = fv.info
+        if info is not None and info.key not in self.func_stubs and info.module.relpath.startswith("sql/"):
+            self._tick()
+            return self.sql_construct(info, args, kwargs)
+        return super().call_function(fv, args, kwargs)
+
+    def getattr(self, base, attr: str, node=None, frame=None):
+        if base is _collections and attr == "namedtuple":
+            return _collections.namedtuple
+        return super().getattr(base, attr, node, frame)
+
+    def call(self, fn, args: list, kwargs: dict, node=None):
+        if fn is _collections.namedtuple:
+            self._tick()
+            return fn(*args, **kwargs)
+        if isinstance(fn, type) and issubclass(fn, tuple) and hasattr(fn, "_fields"):
+            self._tick()
+            try:
+                return fn(*args, **kwargs)
+            except TypeError as e:
+                from ._helpers_na_c import ModelRaise
+                raise ModelRaise("TypeError", str(e))
+        return super().call(fn, args, kwargs, node)
+
+
+def ordered_column_groups(value, is_column, depth: int = 0):
+    """every ordered group (len >= 2) of model columns inside a result value: python sequences and the ordered
+    arguments of recorded SQL constructs, searched through tuples / lists / records"""
+    out = []
+    if depth > 4:
+        return out
+    if isinstance(value, Inst) and "_sql_callee" in value.attrs:
+        cols = [a for a in value.args if is_column(a)]
+        if len(cols) >= 2 and len(cols) == len(value.args):
+            out.append(("arguments of " + value.label, cols))
+        for a in value.args:
+            if not is_column(a):
+                out.extend(ordered_column_groups(a, is_column, depth + 1))
+        return out
+    if isinstance(value, (list, tuple)):
+        cols = [a for a in value if is_column(a)]
+        if len(cols) >= 2 and len(cols) == len(value):
+            out.append(("sequence", list(value)))
+        else:
+            fields = getattr(value, "_fields", None)
+            for n, a in enumerate(value):
+                for what, g in ordered_column_groups(a, is_column, depth + 1):
+                    out.append(((f"{fields[n]}: " if fields else "") + what, g))
+    return out
